@@ -298,5 +298,8 @@ def rule_views(repo: Repo) -> RuleResult:
 
 
 def rules(repo: Repo, tier: str) -> List[RuleResult]:
-    from . import c08
-    return [rule_eq(repo), rule_copy(repo), rule_serialize(repo), rule_views(repo), c08.rule_valuetext(repo, "C14.valuetext")]
+    from . import c07, c08
+    return [rule_eq(repo), rule_copy(repo), rule_serialize(repo), rule_views(repo), c08.rule_valuetext(repo, "C14.valuetext"),
+            # a successor state is a value of its own: what a transition stores into it is not shared with the operator (whose next
+            # application would rewrite the states it produced before)
+            c07.rule_escape(repo, "C14.escape")]
